@@ -254,6 +254,109 @@ def _bucket(n):
     return ">6400"
 
 
+# ============================================================================ part A2: two writers
+
+def run_concurrent(writer, scen, w, only=None):
+    """Two writer objects for the same file, payloads of different length: writer A is stopped right
+    before each of its I/O boundaries, writer B performs a complete update, A resumes.  After every
+    step each target must be one complete serialisation (previous, A's or B's) and load."""
+    from fsmon import crash, tree
+    sc = S.build_pair(writer, scen)
+    work = vlib.mkscratch("c14pair")
+    res = []
+    try:
+        result = os.path.join(work, "result.json")
+        pristine = []
+        for k, wdir in enumerate(sc.watch):
+            p = os.path.join(work, "pristine%d" % k)
+            shutil.copytree(wdir, p, symlinks=True)
+            pristine.append(p)
+
+        def restore():
+            for p, wdir in zip(pristine, sc.watch):
+                tree.restore_dir(p, wdir)
+
+        prev = {n: _read(p) for n, p in sc.targets.items()}
+        solo = {}
+        n_a = None
+        for who, fn in (("A", sc.update_a), ("B", sc.update_b)):
+            r = crash.run_forked(fn, {"mode": "count"}, sc.watch, list(sc.targets), result)
+            if r["status"] != 0 or not r["outcome"] or r["outcome"].get("raised"):
+                raise RuntimeError("solo update of writer %s failed: %r" % (who, r))
+            if who == "A":
+                n_a = len(r["outcome"]["boundaries"])
+            solo[who] = {n: _read(p) for n, p in sc.targets.items()}
+            restore()
+        allowed = {n: {"previous": prev[n], "A": solo["A"][n], "B": solo["B"][n]} for n in sc.targets}
+        if all(solo["A"][n] == solo["B"][n] for n in sc.targets):
+            raise RuntimeError("the two writers produce identical files: the slice would decide nothing")
+        w.count("pair_scenarios")
+        w.count("pair_scenarios_%s" % writer)
+        cases = [(at, fl) for at in range(n_a + 1) for fl in (False, True)] if only is None else [only]
+        for at, fl in cases:
+            restore()
+            r = crash.run_interleaved(sc.update_a, sc.update_b, at, sc.watch, sc.targets, result, flush_each=fl,
+                                      blocked=sc.blocked)
+            o = r["outcome"]
+            w.evaluated()
+            w.count("interleavings")
+            if r["status"] != 0 or not o or o.get("stuck") or o.get("b_stuck"):
+                w.note_inconclusive("interleaving %s/%d at %d ended with %r %s" % (
+                    writer, scen, at, r["status"], {k: o.get(k) for k in ("stuck", "b_stuck")} if o else None))
+                continue
+            if o["serialised"]:
+                w.count("interleavings_prevented_by_lock")
+            elif o["a_reached_boundary"]:
+                w.count("interleavings_b_ran_inside_a")
+            else:
+                w.count("interleavings_sequential")
+            w.distinct("pair|%s|%s|%s" % (writer, "lock" if o["serialised"] else "overlap", fl))
+            bad = None
+            for snap in o["snapshots"]:
+                for n, hx in snap["files"].items():
+                    obs = None if hx is None else bytes.fromhex(hx)
+                    w.count("pair_states_judged")
+                    which = [k for k, v in allowed[n].items() if v == obs]
+                    if not which:
+                        bad = (snap["label"], n, obs)
+                        break
+                    w.count("pair_state_is_%s" % which[0])
+                if bad:
+                    break
+            loader_err = None
+            if not bad:
+                for n, p in sc.targets.items():
+                    try:
+                        sc.loaders[n](p)
+                        w.count("pair_loader_ok")
+                    except BaseException as e:
+                        loader_err = "%s: %s: %s" % (n, type(e).__name__, str(e)[:200])
+            if bad or loader_err:
+                label, n, obs = bad if bad else ("end", None, None)
+                wit = {"kind": "concurrent", "writer": writer, "scen": scen, "at": at, "flush_each": fl,
+                       "step": label, "target": n, "observed_len": None if obs is None else len(obs),
+                       "observed_head": None if obs is None else obs[:160].decode("utf-8", "backslashreplace"),
+                       "lengths": {k: {x: (None if v is None else len(v)) for x, v in a.items()} for k, a in allowed.items()},
+                       "loader_error": loader_err, "results": o.get("results"), "scenario": sc.describe,
+                       "boundary": next((b for b in o["boundaries"] if b.get("thread") == "A" and b.get("ti") == at), None)}
+                if bad:
+                    what = ("%s: two overlapping updates (A stopped before its boundary %d, B complete, A resumed; "
+                            "flush_each=%s): at step '%s' %s (%s bytes) is none of the complete versions %s" % (
+                                writer, at, fl, label, n, wit["observed_len"], wit["lengths"][n]))
+                else:
+                    what = "%s: after two overlapping updates the file cannot be loaded (%s)" % (writer, loader_err)
+                res.append((what, wit, None))
+        return res
+    finally:
+        sc.cleanup()
+        shutil.rmtree(work, ignore_errors=True)
+
+
+def job_concurrent(job, w):
+    for what, wit, key in run_concurrent(job["writer"], job["scen"], w):
+        emit(w, what, wit, key)
+
+
 # ======================================================================================= part B
 
 def esc(s):
@@ -625,7 +728,7 @@ def job_fidelity_details(job, w):
 # ======================================================================================= driver
 
 def run_job(job, w):
-    {"crash": job_crash, "fidelity_status": job_fidelity_status, "fidelity_keyoutputs": job_fidelity_keyoutputs,
+    {"crash": job_crash, "concurrent": job_concurrent, "fidelity_status": job_fidelity_status, "fidelity_keyoutputs": job_fidelity_keyoutputs,
      "fidelity_details": job_fidelity_details}[job["kind"]](job, w)
 
 
@@ -644,6 +747,8 @@ def replay(c, rp):
                 case.judge(wit["plan"], case.run(wit["plan"]), w)
         finally:
             case.close()
+    elif wit.get("kind") == "concurrent":
+        res = run_concurrent(wit["writer"], wit["scen"], w, only=(wit["at"], wit["flush_each"]))
     elif wit.get("kind") == "fidelity_status":
         res = run_history(wit["history"], w)
     elif wit.get("kind") == "fidelity_keyoutputs":
@@ -694,6 +799,10 @@ def main():
             nparts = (4 if heavy else 1) if not thorough else (3 if heavy else 1)
             for part in range(nparts):
                 jobs.append({"kind": "crash", "writer": writer, "scen": scen, "cap": cap, "part": part, "nparts": nparts})
+    n_pair = {"status": 16 if thorough else 4, "keyoutputs": 6 if thorough else 2}
+    for writer, k in n_pair.items():
+        for scen in range(k):
+            jobs.append({"kind": "concurrent", "writer": writer, "scen": scen, "nparts": 1})
     n_hist = 5000 if thorough else 240
     for lo in range(0, n_hist, 60 if not thorough else 250):
         jobs.append({"kind": "fidelity_status", "lo": lo, "hi": min(n_hist, lo + (60 if not thorough else 250))})
@@ -715,6 +824,9 @@ def main():
     c.floor("deaths_delivered", 1500 if not thorough else 40000)
     c.floor("errors_delivered", 700 if not thorough else 15000)
     c.floor("loader_ok", 1300 if not thorough else 30000)
+    c.floor("pair_scenarios_status", n_pair["status"])
+    c.floor("pair_scenarios_keyoutputs", n_pair["keyoutputs"])
+    c.floor("interleavings_b_ran_inside_a", 100 if not thorough else 400)
     c.floor("status_histories", n_hist)
     c.floor("status_histories_fresh", n_hist // 5)
     c.floor("readbacks_with_description", n_hist // 2)
